@@ -5,8 +5,8 @@ from core import Case, canon, hx, REPO
 import c01
 
 PROP = "C10"
-LEAN_MODULES = ["DrxProps.C10", "DrxProps.C10Cast"]
-FAMILIES = ["riff", "cast"]
+LEAN_MODULES = ["DrxProps.C10", "DrxProps.C10Cast", "DrxProps.C10Idx", "DrxProps.C10Snd"]
+FAMILIES = ["riff", "cast", "idx", "text", "snd"]
 RULE = ("for each public decoder: real files from the repo's fixtures (<= 64 KiB), mutated copies with every 1/2/4-byte field at the "
         "leading offsets set to 0, 1, -1, max, min and self-referential (len) values, truncations at many offsets, random byte strings, and "
         "generated containers/records; each call runs in a worker under an interval-timer alarm (hang => 'timeout') and an address-space "
@@ -112,7 +112,15 @@ def declared(name, d: bytes, aux) -> int:
         except Exception:
             return 0
     if name == "vwsc":
-        return 40 * len(d)       # every 2-byte 'same' record legitimately yields a whole frame of parsed channels
+        # every frame record (>= 2 bytes) legitimately yields one parsed frame of channel_count channels; the channel count is a
+        # 16-bit header word (its position depends on the optional wrapper): take the largest non-negative word of the header area
+        words = [int.from_bytes(d[i:i + 2], "big", signed=True) for i in range(0, min(len(d) - 1, 48), 2)]
+        c = max([w for w in words if w >= 0] + [1])
+        return (len(d) // 2 + 1) * c + 40 * len(d)
+    if name == "snd":
+        # each sound command legitimately replays the sample area its header points at (the same area may be named by several
+        # commands): at most (number of 8-byte command records) * len(d) output bytes
+        return (len(d) // 8 + 1) * len(d)
     if name == "dir":
         return 64 * len(d)
     return 0
@@ -392,6 +400,16 @@ TWINS = {
     "riff": (lambda data, aux: f"riff steps {aux['order']} 0 {hx(data)}" if aux.get("order") in ("<", ">") else None,
              [("drxtract.riff.riff", "parse_riff")]),
     "cast": (lambda data, aux: f"cast steps {hx(data)}", [("drxtract.cast.cast", "parse_basic_cast_data")]),
+    "snd": (lambda data, aux: f"snd steps {hx(data)}",
+            [("drxtract.snd.format", "parse_snd_fmt1"), ("drxtract.snd.format", "parse_snd_commands"),
+             ("drxtract.snd.snd2sampled", "snd_to_sampled"), ("drxtract.snd.command.bufferCmd", "_get_frames")]),
+    "key": (lambda data, aux: f"idx steps key {aux.get('order', '>')} {hx(data)}", [("drxtract.key.key", "parse_key_file_data")]),
+    "cas": (lambda data, aux: f"idx steps cas {hx(data)}", [("drxtract.cas.cas", "parse_cas_file_data")]),
+    "lctx": (lambda data, aux: f"idx steps lctx {hx(data)}", [("drxtract.lctx.lctx", "parse_lctx_file_data")]),
+    "lnam": (lambda data, aux: f"idx steps lnam mac_roman {hx(data)}", [("drxtract.lingosrc.parse.lnam", "parse_lnam_file_data")]),
+    "vwlb": (lambda data, aux: f"idx steps vwlb mac_roman {hx(data)}", [("drxtract.vwlb.vwlb", "parse_vwlb_data")]),
+    "fmap": (lambda data, aux: f"text steps fmap {hx(data)} mac_roman", [("drxtract.fmap.fmap", "parse_fmap_data")]),
+    "stxt": (lambda data, aux: f"text steps stxt {hx(data)} mac_roman 0", [("drxtract.stxt.stxt", "parse_stxt_data")]),
 }
 _LOOPS = {}
 
